@@ -26,7 +26,7 @@ Doc ==
       at |-> [j \in 1..n |-> ""]]
 
 XP == [steps |-> <<[axis |-> "child", test |-> "a"], [axis |-> "child", test |-> "b"]>>,
-       pk |-> IF Filtered THEN "child=" ELSE "none", pn |-> "a", pv |-> "1"]
+       pk |-> IF Filtered THEN "child=" ELSE "none", pn |-> "a", pv |-> "1", pre |-> ""]
 
 RECURSIVE Sizes(_, _, _, _)
 \* sizes of the partial tree at every delivery
